@@ -120,6 +120,17 @@ def positives(seed, n_seeded):
     each("S", "<T>", "", [("#[codec(compact)]\n    ", "T"), ("#[codec(compact)]\n    ", "u64")], [("S<u32>", [("T", S)]), ("S<u128>", [("T", S)])], ["compact"])
     each("S", "<T: Tr>", "where T::N: HasCompact", [("#[codec(compact)]\n    ", "T::N"), ("", "T::A")], [("S<Impl>", [("T", S)])], ["compact", "compact_assoc"])
     each("S", "<T: Tr>", "where <T as Tr>::N: HasCompact", [("#[codec(compact)]\n    ", "<T as Tr>::N")], [("S<Impl>", [("T", S)])], ["compact", "compact_assoc"])
+    # the same generic type as a plain member and as a compact member, in both orders
+    each("S", "<T>", "", [("", "T"), ("#[codec(compact)]\n    ", "T")], [("S<u32>", [("T", S)])], ["compact", "compact_and_plain"])
+    each("S", "<T>", "", [("#[codec(compact)]\n    ", "T"), ("", "T"), ("", "Vec<T>")], [("S<u64>", [("T", S)])], ["compact", "compact_and_plain"])
+    each("S", "<T, U>", "", [("", "U"), ("", "T"), ("#[codec(compact)]\n    ", "U"), ("#[codec(compact)]\n    ", "T")], [("S<u8, u16>", [("T", S), ("U", S)])], ["compact", "compact_and_plain"])
+    # a skipped parameter that occurs only in skipped members (nothing else gives it a bound)
+    each("S", "<T>", "", [("#[codec(skip)]\n    ", "NoInfoOf<T>"), ("", "u8")], [("S<NoInfo>", [("T", N)]), ("S<String>", [("T", N)])], ["codec_skip", "skip_type_params", "skipped_param_only_in_skipped_member"],
+         attrs="#[scale_info(skip_type_params(T))]\n")
+    each("S", "<T, U>", "", [("#[codec(skip)]\n    ", "Vec<T>"), ("", "U")], [("S<NoInfo, u8>", [("T", N), ("U", S)])], ["codec_skip", "skip_type_params", "skipped_param_only_in_skipped_member"],
+         attrs="#[scale_info(skip_type_params(T))]\n")
+    each("S", "<T>", "", [("", "u8")], [("S<NoInfo>", [("T", N)])], ["codec_skip", "skip_type_params", "skipped_param_only_in_skipped_member", "codec_skip_variant"], only=["enum_named", "enum_tuple"],
+         attrs="#[scale_info(skip_type_params(T))]\n", variants_extra="    #[codec(skip)]\n    Skipped(T, NoInfoOf<T>),\n")
     # 9. encoded_as on a generic member whose parameter is declared HasCompact
     each("S", "<T: HasCompact>", "", [("#[codec(encoded_as = \"<T as HasCompact>::Type\")]\n    ", "T"), ("", "u8")], [("S<u32>", [("T", S)])], ["encoded_as_generic"])
     # seeded decorations: combine a random subset of member kinds into bigger definitions
@@ -246,6 +257,20 @@ def negatives(seed):
         add("derive/duplicate-attribute", dv("#[scale_info(%s)]\n#[scale_info(%s)]\n" % (a, a), item), dv("#[scale_info(%s)]\n" % a, item), ["duplicate", key, "two-attributes"])
         other = r.choice([x for x in dups if x[0] != key])[1]
         add("derive/duplicate-attribute", dv("#[scale_info(%s, %s)]\n#[scale_info(%s)]\n" % (a, other, a), item), dv("#[scale_info(%s, %s)]\n" % (a, other), item), ["duplicate", key, "mixed"])
+    # every ordered pair of capture_docs values, in one attribute and across two
+    for v1 in ["default", "always", "never", "Default", "ALWAYS"]:
+        for v2 in ["default", "always", "never"]:
+            item = "pub struct S<T> { a: PhantomData<T> }"
+            add("derive/duplicate-attribute", dv("#[scale_info(capture_docs = \"%s\", capture_docs = \"%s\")]\n" % (v1, v2), item), dv("#[scale_info(capture_docs = \"%s\")]\n" % v2, item), ["duplicate", "capture_docs", "value-pairs"])
+            add("derive/duplicate-attribute", dv("#[scale_info(capture_docs = \"%s\")]\n#[scale_info(capture_docs = \"%s\")]\n" % (v1, v2), item), dv("#[scale_info(capture_docs = \"%s\")]\n" % v1, item), ["duplicate", "capture_docs", "value-pairs"])
+    # duplicates whose two occurrences differ, or whose first occurrence is "empty"
+    for a1, a2 in [("bounds()", "bounds(T: TypeInfo + 'static)"), ("bounds(T: TypeInfo + 'static)", "bounds()"), ("skip_type_params()", "skip_type_params(T)"), ("skip_type_params(T)", "skip_type_params()"),
+                   ("crate = ::scale_info", "crate = scale_info"), ("bounds()", "bounds()"), ("skip_type_params()", "skip_type_params()")]:
+        item = "pub struct S<T> { a: PhantomData<T> }"
+        good = a2 if "()" not in a2 or "skip" in a2 else a1
+        twin_attr = "bounds(T: TypeInfo + 'static)" if a1.startswith("bounds") else ("skip_type_params(T)" if a1.startswith("skip") else "crate = ::scale_info")
+        add("derive/duplicate-attribute", dv("#[scale_info(%s, %s)]\n" % (a1, a2), item), dv("#[scale_info(%s)]\n" % twin_attr, item), ["duplicate", "differing-occurrences", "one-attribute"])
+        add("derive/duplicate-attribute", dv("#[scale_info(%s)]\n#[scale_info(%s)]\n" % (a1, a2), item), dv("#[scale_info(%s)]\n" % twin_attr, item), ["duplicate", "differing-occurrences", "two-attributes"])
     for val in ["sometimes", "", "yes", "alway", "never ", "default,always"]:
         add("derive/invalid-capture-docs", dv("#[scale_info(capture_docs = \"%s\")]\n" % val), dv("#[scale_info(capture_docs = \"never\")]\n"), ["invalid-capture-docs"])
     add("derive/invalid-capture-docs", dv("#[scale_info(capture_docs = always)]\n"), dv("#[scale_info(capture_docs = \"always\")]\n"), ["invalid-capture-docs", "not-a-string"])
